@@ -61,8 +61,14 @@ def unit(rng, dim):
     return v / n
 
 
+POISON = (7.25e3, -3.5e3, 1.125e3)
+
+
 def grad_of(k, x, r, h):
-    g = [0.0, 0.0, 0.0]
+    # the output array holds the result of some earlier pair, as it does in
+    # the generated loops (one DWIJ scratch array for all neighbours): what
+    # comes back must depend on the inputs only
+    g = list(POISON)
     k.gradient(list(x), r, h, g)
     return g
 
@@ -257,7 +263,7 @@ def twins(mon, name, dim, h, k, rng, tier, case, scaleW, scaleD):
         py = [k.kernel(xl, r, h), k.dwdq(r, h), k.gradient_h(xl, r, h)] + \
             grad_of(k, xl, r, h)
         xa = np.array(xl)
-        ga = np.zeros(3)
+        ga = np.array(POISON)
         ck.py_gradient(xa, r, h, ga)
         cy = [ck.py_kernel(xa, r, h), ck.py_dwdq(r, h),
               ck.py_gradient_h(xa, r, h)] + list(ga)
